@@ -538,6 +538,15 @@ class Run:
             lines_out.append(f"VIOLATION property={pid} replay={path} no-failing-input-found")
             nviol += 1
         self.write_evidence(broken, cases, cfgs, names, axioms, nviol, len(real), len(drift))
+        # the shard inputs/outputs of a run can be gigabytes in the thorough tier: keep only the audit file (named by checker_cmd)
+        if not os.environ.get("VERIF_KEEP_TMP"):
+            for fn in os.listdir(self.tmp) if os.path.isdir(self.tmp) else []:
+                if fn != "Audit.lean":
+                    fp = os.path.join(self.tmp, fn)
+                    try:
+                        shutil.rmtree(fp) if os.path.isdir(fp) else os.remove(fp)
+                    except OSError:
+                        pass
         for ln in lines_out:
             print(ln)
         for o in broken:
